@@ -1,11 +1,13 @@
 """C07 - nsync_run_once runs its function exactly once and nobody returns early.
 
-The once word is a monotone automaton 0 -> 1 -> 2.  Decided by interpreting the four entry points (and the shared implementation inlined into
-them) with the word abstracted to {0,1,2}:
-R1  who-may-write: the only writes to *once are a CAS whose every success is 0 -> 1 and a store of 2 by the thread that won that CAS.
-R2  the user function (f / farg) is called only by the thread that won the CAS, before its store of 2; the store of 2 follows the call on every path.
-R3  at every return, the caller's last observation of *once is an acquire load that can only have been 2, or its own store of 2.
-R4  a call that finds the word already 2 performs no call at all (it cannot block).
+The once word is a monotone automaton 0 -> running -> done (today 0 -> 1 -> 2).  The automaton is read off the code, not frozen: the word's
+universe is every constant the file stores to, CASes into or compares with the word; "running" values are the targets of its CASes, "done"
+values the ones written by plain stores.  Decided by interpreting the four entry points (and the shared implementation inlined into them):
+R1  who-may-write: the only writes to *once are a CAS whose every success goes from 0 to a running value (not 0, not a done value) and a store
+    of a done value (not 0, not a running value) by the thread that won such a CAS.
+R2  the user function (f / farg) is called only by the thread that won the CAS, before its store; the store follows the call on every path.
+R3  at every return, the caller's last observation of *once is an acquire load that can only have been a done value, or its own store of one.
+R4  a call that finds the word already done performs no call at all (it cannot block).
 R5  sibling: do_once in per_thread_waiter.c follows the same automaton (R1-R3).
 Because the automaton is monotone, R1-R3 imply exactly-once and nobody-early for every interleaving; that blocked losers are eventually
 released (liveness of the cv/spin wait) is not decided."""
@@ -18,10 +20,11 @@ ONCE = Ptr('arg:once', ())
 
 class OnceEngine(SmallWordEngine):
     def word_transition(self, st, rec):
-        if rec.how == 'cas' and rec.pairs and all(p == (0, 1) for p in rec.pairs):
+        if rec.how == 'cas' and rec.pairs and all(e == 0 and n != 0 for e, n in rec.pairs):
             st.ghost[('flag', 'claimed')] = 1
         if rec.how == 'store':
-            st.ghost[('flag', 'stored2')] = 1 if (rec.pairs and all(n == 2 for e, n in rec.pairs)) else 0
+            vals = frozenset(n for e, n in rec.pairs) if rec.pairs else None
+            st.ghost[('flag', 'stored_done')] = vals if vals is not None else 0
             st.ghost[('last_obs',)] = 'own-store'
     def exec_load(self, st, f, inst):
         r = SmallWordEngine.exec_load(self, st, f, inst)
@@ -36,9 +39,9 @@ class OnceEngine(SmallWordEngine):
 
 def run(ctx, rep):
     mod = ctx.mod('C')
-    rep.rule('C07.R1', 'writes to the once word: only CAS 0->1 and store 2 by the CAS winner')
-    rep.rule('C07.R2', 'the user function is called only between winning the CAS and the store of 2')
-    rep.rule('C07.R3', 'at every return the last observation of the word is an acquire load equal to 2, or the own store of 2')
+    rep.rule('C07.R1', 'writes to the once word: only CAS 0 -> running and store of done by the CAS winner (today 0->1, 2)')
+    rep.rule('C07.R2', 'the user function is called only between winning the CAS and the store of the done value')
+    rep.rule('C07.R3', 'at every return the last observation of the word is an acquire load that saw a done value, or the own store of it')
     rep.rule('C07.R4', 'the already-done path performs no call')
     rep.rule('C07.R5', 'sibling do_once (per-thread waiter key) follows the same automaton')
     entries = []
@@ -50,12 +53,41 @@ def run(ctx, rep):
             raise AnalysisBroken('C07: %s not found' % name)
         entries.append((name, args, (ONCE.base,), ('once.c',), 'C07'))
     sib = [f for f in mod.defined.values() if (f.file or '').endswith('per_thread_waiter.c') and len(f.args) >= 1 and
-           any(i.op == 'store' and i.ord != 'na' and IR.is_int(i.ops[0]) and IR.ival(i.ops[0]) == 2 for i in f.real_insts())]
+           any(i.op == 'store' and i.ord != 'na' and IR.is_int(i.ops[0]) and IR.ival(i.ops[0]) != 0 for i in f.real_insts())]
+    def universe(files):
+        """0 plus every small constant the file's functions (and the CAS wrappers' callers) store to, CAS into or compare with an atomic word"""
+        U = {0}
+        for f in mod.defined.values():
+            if not any((f.file or '').endswith(x) for x in files):
+                continue
+            for i in f.real_insts():
+                cands = []
+                if i.op == 'store' and i.ord != 'na':
+                    cands = i.ops[:1]
+                elif i.op == 'cmpxchg':
+                    cands = i.ops[1:3]
+                elif i.op == 'icmp':
+                    cands = i.ops
+                elif i.op == 'call' and i.callee in wrappers_:
+                    cands = i.ops[1:]
+                elif i.op == 'phi':
+                    cands = [v for v, pb in i.ops]
+                for o in cands:
+                    if IR.is_int(o) and 0 <= IR.ival(o) < 64:
+                        U.add(IR.ival(o))
+        return tuple(sorted(U))
+    wrappers_ = util.cas_wrappers(mod)
     for f in sib:
         entries.append((f.name, [Ptr('arg:once', ())] + [Ptr('client:dest', ())] * (len(f.args) - 1), (ONCE.base,), ('per_thread_waiter.c',), 'C07.R5'))
     for name, args, bases, files, tag in entries:
-        eng = OnceEngine(mod, 'once', (0, 1, 2), bases=bases, files=files)
+        U = universe(files)
+        if len(U) > 8:
+            raise AnalysisBroken('C07: the once word of %s combines with %d different constants' % (name, len(U)))
+        eng = OnceEngine(mod, 'once', U, bases=bases, files=files)
         exits = eng.run(name, args, nn=set(a for a in args if isinstance(a, Ptr)))
+        RUN = set(n for r in eng.records if r.kind == 'trans' and r.how == 'cas' for e, n in (r.pairs or []))
+        DONE = set(n for r in eng.records if r.kind == 'trans' and r.how == 'store' for e, n in (r.pairs or []))
+        rep.instance(('C07.R5' if tag == 'C07.R5' else 'C07.R1'), '%s: once-word universe %s, running values %s, done values %s' % (name, list(U), sorted(RUN), sorted(DONE)))
         rep.functions.update(f for r in eng.records for f in r.stack)
         sib_mode = tag == 'C07.R5'
         r1, r2, r3, r4 = (tag,) * 4 if sib_mode else ('C07.R1', 'C07.R2', 'C07.R3', 'C07.R4')
@@ -64,17 +96,17 @@ def run(ctx, rep):
                 s = r.site(eng.wrappers)
                 rep.instance(r1, '%s %s %s pairs=%s [%s]' % (s.where(), r.how, r.ord, sorted(set(r.pairs or [])), name))
                 if r.how == 'cas':
-                    ok = r.pairs is not None and all(p == (0, 1) for p in r.pairs)
-                    msg = 'a CAS on the once word can succeed with a transition other than 0 -> 1: %s' % sorted(set(r.pairs or []))
+                    ok = r.pairs is not None and all(e == 0 and n != 0 and n not in DONE for e, n in r.pairs)
+                    msg = 'a CAS on the once word can succeed with a transition other than 0 -> running (a value that is neither 0 nor a completion value %s): %s' % (sorted(DONE), sorted(set(r.pairs or [])))
                 else:
-                    ok = r.pairs is not None and all(n == 2 for e, n in r.pairs) and r.flags.get(('flag', 'claimed')) == 1
-                    msg = 'the once word is stored to by a thread that did not win the 0 -> 1 claim, or with a value other than 2'
+                    ok = r.pairs is not None and all(n != 0 and n not in RUN for e, n in r.pairs) and r.flags.get(('flag', 'claimed')) == 1
+                    msg = 'the once word is stored to by a thread that did not win the claim, or with a value that does not mean "done" (0 or a running value %s): %s' % (sorted(RUN), sorted(set(n for e, n in (r.pairs or []))))
                 rep.oblig(r1, ok)
                 if not ok:
                     rep.violate(Violation(r1, s.where(), msg + ' [entry %s]' % name, site='%s/once-write' % s.fn.name))
             elif r.kind == 'icall':
                 claimed = r.ghost.get(('flag', 'claimed')) == 1
-                stored = ('flag', 'stored2') in r.ghost
+                stored = ('flag', 'stored_done') in r.ghost
                 ok = claimed and not stored
                 rep.instance(r2, 'user function called at %s, claimed=%s, done-stored=%s [%s]' % (r.where(), claimed, stored, name))
                 rep.oblig(r2, ok)
@@ -83,7 +115,7 @@ def run(ctx, rep):
                                                            else 'the once-function is called after completion was already published') + ' [entry %s]' % name,
                                           site='%s/once-call' % r.inst.fn.name))
             elif r.kind == 'call' and not getattr(r, 'inlined', False) and sib_mode and r.callee == 'pthread_key_create':
-                claimed = r.ghost.get(('flag', 'claimed')) == 1 and ('flag', 'stored2') not in r.ghost
+                claimed = r.ghost.get(('flag', 'claimed')) == 1 and ('flag', 'stored_done') not in r.ghost
                 rep.instance(r2, 'one-time initialisation %s at %s' % (r.callee, r.where()))
                 rep.oblig(r2, claimed)
                 if not claimed:
@@ -94,15 +126,17 @@ def run(ctx, rep):
             ok = False
             why = 'returns without having observed the word'
             if lo == 'own-store':
-                ok = x.ghost.get(('flag', 'stored2')) == 1
-                why = 'its own store was not the value 2'
+                sd = x.ghost.get(('flag', 'stored_done'))
+                ok = isinstance(sd, frozenset) and bool(sd) and sd <= DONE and not (sd & (RUN | {0}))
+                why = 'its own store was not a completion value'
             elif is_expr(lo):
                 vals = x.S.get(lo[1], frozenset())
                 o = x.ghost.get(('last_obs_ord',))
-                ok = vals <= frozenset((2,)) and o in ('acquire', 'seq_cst', 'acq_rel')
-                why = ('the last load of the once word before the return (%s) may have seen %s' % (x.ghost.get(('last_obs_at',)), sorted(vals))) if not vals <= frozenset((2,)) \
-                    else 'the load that saw 2 (%s) is %s, not acquire' % (x.ghost.get(('last_obs_at',)), o)
-            rep.instance(r3, '%s: return with last observation %s' % (name, 'own store of 2' if lo == 'own-store' else (sorted(x.S.get(lo[1], ())) if is_expr(lo) else lo)))
+                good = frozenset(DONE - RUN - {0})
+                ok = bool(vals) and vals <= good and o in ('acquire', 'seq_cst', 'acq_rel')
+                why = ('the last load of the once word before the return (%s) may have seen %s (done means %s)' % (x.ghost.get(('last_obs_at',)), sorted(vals), sorted(good))) if not (vals and vals <= good) \
+                    else 'the load that saw the done value (%s) is %s, not acquire' % (x.ghost.get(('last_obs_at',)), o)
+            rep.instance(r3, '%s: return with last observation %s' % (name, 'own store of the done value' if lo == 'own-store' else (sorted(x.S.get(lo[1], ())) if is_expr(lo) else lo)))
             rep.oblig(r3, ok)
             if not ok:
                 fn = mod.func(name)
@@ -116,7 +150,7 @@ def run(ctx, rep):
             if first is not None:
                 um = util.users_map(fn)
                 for c in um.get(first.id, []):
-                    if c.op == 'icmp' and any(IR.is_int(o) and IR.ival(o) == 2 for o in c.ops):
+                    if c.op == 'icmp' and c.x['pred'] in ('eq', 'ne') and any(IR.is_int(o) and IR.ival(o) in DONE for o in c.ops):
                         for b in um.get(c.id, []):
                             if b.op == 'br' and len(b.x['targets']) == 2:
                                 done = b.x['targets'][1] if c.x['pred'] == 'ne' else b.x['targets'][0]
@@ -124,10 +158,10 @@ def run(ctx, rep):
                                 region = cfg_of(fn).reachable_from([done], avoid=frozenset([t for t in b.x['targets'] if t != done]))
                                 calls = [i for bid in region for i in fn.bmap[bid].insts if i.op == 'call' and not (i.callee or 'x').startswith(('llvm.', 'Annotate'))]
                                 ok = not calls
-            rep.instance(r4, '%s: path taken when the first load sees 2' % name)
+            rep.instance(r4, '%s: path taken when the first load sees the done value' % name)
             rep.oblig(r4, ok)
             if not ok:
-                rep.violate(Violation(r4, '%s:%d in %s' % (IR.rel(fn.file), fn.line, name), '%s makes a call (may block) even when the once word is already 2' % name, site='%s/done-path-call' % name))
+                rep.violate(Violation(r4, '%s:%d in %s' % (IR.rel(fn.file), fn.line, name), '%s makes a call (may block) even when the once word already holds the done value' % name, site='%s/done-path-call' % name))
     rep.floor('C07.R1', 8)
     rep.floor('C07.R2', 4)
     rep.floor('C07.R3', 8)
@@ -135,5 +169,5 @@ def run(ctx, rep):
     rep.assumptions += ['monotone-automaton argument: R1-R3 per thread imply exactly-once and nobody-early for every interleaving',
                         'eventual release of blocked losers (cv timing / spinning) is not decided']
     return rep.finish(
-        explanation='Abstract interpretation of the once word over {0,1,2} through the four entry points and the sibling do_once: every write, every call of the user function and every return is judged against the 0->1->2 automaton.',
+        explanation='Abstract interpretation of the once word over the constants its file uses (today {0,1,2}) through the four entry points and the sibling do_once: every write, every call of the user function and every return is judged against the 0 -> running -> done automaton read off the code.',
         trusted_base=['clang 14 IR', 'nsa/symex.py', 'monotone-automaton meta-argument'])
